@@ -388,6 +388,8 @@ def srv_nontrivial(inp, impl):
         ks.append("stream-readiness-by-events")
     if "V" in impl or "E" in impl:
         ks.append("replies-delivered")
+    if " W1 " in inp or inp.startswith("W1 "):
+        ks.append("wake-driven-executor")
     return ks
 
 
@@ -413,7 +415,7 @@ SRV_ASSUME = [
     "the service is the fixed family the harness implements (echo / error / stream of n items / undecodable call; a stream hands over a result - an item or its end - only while its client has an allowance, which `k<id>:<n>` events raise: until then its next() is pending); answers depend on the call only (per-call deterministic service)",
     "futures_util::select_biased!, fuse and StreamExt::next poll in the documented order (branch order; first ready wins); accept errors are not among the modelled events",
     "well-behaved connection = whole frames, close only after everything was sent, writable transport, whole per-connection stream below MAX_BUFFER_SIZE; nothing is assumed about other connections",
-    "liveness: C08_quiescent proves that in every reachable idle state (no select branch can progress) every well-behaved connection whose bytes have all arrived has had all its calls answered (exactly the reference output); that the executor polls the server until idle is the waker contract (assumed); "
+    "liveness: C08_quiescent proves that in every reachable idle state (no select branch can progress) every well-behaved connection whose bytes have all arrived has had all its calls answered (exactly the reference output); the waker contract is part of the model (Srv.runW: the task is polled when spawned and then only when an event woke it; Srv.wakes: an event wakes it iff its source is one the parked loop waits on): C08_no_lost_wakeup (a task that is not scheduled has nothing to do), C08_wake_driven (wake-driven polling computes the states of polling after every event), C08_parked_all_answered; on the code two cases in five run under a wake-driven executor with a listener, sockets and reply streams that keep the waker of a pending poll and wake it when their event happens (a lost wake-up shows as an unanswered client); "
     "the oracle additionally checks the same at the end of each schedule",
     "the flags on stream items follow one of four patterns of the test service (conventional / all true / alternating / unflagged); item readiness is an environment event in the model (Ev.produce) and in the harness (a stream type that is Pending without allowance); one case in 2 (srv-stream) / 4 (others) is gated, a third of those ends with streams still open and silent while every other connection must have been served in full",
 ]
@@ -917,7 +919,7 @@ PROPS = {
     },
     "C08": {
         "property_modules": ["Zlink.Properties.C08"], "lean_modules": ["Zlink.Properties.C08"],
-        "theorems": ["C08.C08_refinement", "C08.C08_quiescent", "C08.C08_model_satisfies_oracle", "C08.C08_oneway_silent", "C08.C08_one_reply", "C08.C08_in_order"],
+        "theorems": ["C08.C08_refinement", "C08.C08_quiescent", "C08.C08_model_satisfies_oracle", "C08.C08_no_lost_wakeup", "C08.C08_wake_driven", "C08.C08_parked_all_answered", "C08.C08_oneway_silent", "C08.C08_one_reply", "C08.C08_in_order"],
         "run": run_srv_scenarios(["srv"]), "trusted_base": TB_COMMON, "assumptions": SRV_ASSUME,
     },
     "C09": {
